@@ -600,6 +600,14 @@ pub fn run(cfg: &Cfg) -> Stats {
         }
     }
     d.list("long strings (0-200 bytes) with one 2-, 3- or 4-byte character at every byte offset", &longs);
+    // special words of the domain (none is a language identifier unless the grammar says so) and the
+    // sanitisation slips of the language-id space
+    let mut special: Vec<Vec<u8>> = ["root", "ROOT", "Root", "und", "UND", "mul", "zxx", "mis", "i-default", "x-private", "en-x-private", "*", "en-*", "C", "POSIX", "en_US.UTF-8", "en_US@euro", "true", "null", "None", "default", "und-x-foo", "und-u-ca-buddhist", "zh-cmn-Hans", "sgn-BE-FR", "i-klingon", "en-GB-oed", "art-lojban", "cel-gaulish", "no-bok", "zh-min-nan", "root-x-foo"]
+        .iter()
+        .map(|s| s.as_bytes().to_vec())
+        .collect();
+    special.extend(crate::props::spaces::sanitisation_slips(crate::props::spaces::SLIP_BASES_LANGID));
+    d.list("special words (root, und, mul, POSIX names, grandfathered tags ...) and sanitisation slips", &special);
     let c = gen::corpus(&cfg.repo);
     let all: Vec<Vec<u8>> = c.locale_names.iter().chain(c.likely_keys.iter()).chain(c.likely_vals.iter()).map(|s| s.as_bytes().to_vec()).collect();
     d.list("G5 CLDR locale names, likelySubtags keys and values", &all);
